@@ -163,7 +163,19 @@ def run(prog, rep):
                             problems.append('iterator adapter %s bytes although endianness %s the native one' % ('swaps' if swaps[0] else 'does not swap',
                                                                                                               'differs from' if differs else 'equals'))
                 else:
-                    rev = [s for s in cs if s['n'] == 'Reverse' and 'Memory' in s['q']]
+                    # the reversal may sit in a repo helper the encoder calls (instantiated for this pair of byte orders): helpers are
+                    # followed, the width-generic Encode/Decode the traits class forwards to is not
+                    seen_h, todo, rev = set(), list(cs), []
+                    while todo:
+                        s = todo.pop()
+                        if s['n'] == 'Reverse' and 'Memory' in s['q']:
+                            rev.append(s)
+                            continue
+                        g = prog.funcs.get(s['id'])
+                        if g is None or g.id in seen_h or not s.get('repo') or s['n'] in ('Encode', 'Decode') or len(seen_h) > 20:
+                            continue
+                        seen_h.add(g.id)
+                        todo.extend(callees(g))
                     if bool(rev) != differs:
                         problems.append('output is %sbyte-reversed although endianness %s the native one' % ('' if rev else 'not ', 'differs from' if differs else 'equals'))
                 if problems:
